@@ -20,9 +20,10 @@
 (* weight below 1e-200 as 0: Optimizer.sample_parameters hands a zero      *)
 (* weight over as 1e-300, which no logged quantity can tell from 0).  A    *)
 (* zero-weight update is counted and leaves no other mark (UpdAcc, guarded *)
-(* branch): while a rank has weighed nothing its M2 is 0 and its mean is a *)
-(* placeholder that is not compared (nobody reads it: the combine skips    *)
-(* ranks of zero weight); so are the variance / mean such a rank posts.    *)
+(* branch): while a rank has weighed nothing its mean and M2 are           *)
+(* placeholders that are not compared (nobody reads them: the combine      *)
+(* skips ranks of zero weight, and the first positive weight w is folded   *)
+(* in with w/w = 1); so are the variance / mean such a rank posts.         *)
 (* The combined result is compared whenever one logged weight is positive. *)
 (* Runs are independent: a rejected event prints BAD and skips its tid.    *)
 (***************************************************************************)
@@ -59,8 +60,8 @@ ChkU(s, e) ==
     /\ LET a == NewAcc(s, e) IN
          /\ e.cnt = a.count
          /\ Close(e.wc, e.S, a.wcount, e.tol)
-         /\ a.wcount # RZero => Close(e.mean, e.S, a.mean, e.tol)
-         /\ Close(e.m2, e.S, a.M2, e.tol)
+         /\ a.wcount # RZero => /\ Close(e.mean, e.S, a.mean, e.tol)
+                                /\ Close(e.m2, e.S, a.M2, e.tol)
 ChkG(s, e) ==
     /\ s.sent[e.rank] = <<>>
     /\ LET c == Contribution(s.acc[e.rank]) IN
